@@ -57,6 +57,9 @@ type Layout struct {
 	Svcb        []TypeLayout `json:"svcb"`
 	SvcbDefault []Entry      `json:"svcbdefault"`
 
+	// NilLists: Build leaves an empty list as the nil slice instead of an empty non-nil one (both spell "no elements")
+	NilLists bool
+
 	byType map[int]*TypeLayout
 	byOpt  map[int][]Entry
 	bySvcb map[int][]Entry
@@ -638,8 +641,14 @@ func strSlice(bs [][]byte, spell func([]byte) string) []string {
 	return out
 }
 
+var listKinds = map[string]bool{"strs": true, "lstrs": true, "names": true, "bitmap": true, "bitmap0": true, "u16list": true,
+	"alist": true, "aaaalist": true, "apl": true, "opts": true, "svcb": true}
+
 func (l *Layout) setField(sv reflect.Value, e Entry, v interface{}, f map[string]interface{}) {
 	fv := field(sv, e.N)
+	if l.NilLists && listKinds[e.K] && len(asSeq(v)) == 0 {
+		return // the zero value: a nil slice
+	}
 	switch e.K {
 	case "u8", "u16":
 		fv.SetUint(uint64(asInt(v)))
@@ -1051,6 +1060,14 @@ func (l *Layout) ClassOf(a *RR) (cls string) {
 		}
 	}()
 	if a.Nodata {
+		// an RDATA-less record of a type all of whose fields are names, addresses, lists or opaque data has the zero value
+		// of its Go struct as a faithful spelling; a type with integer / single-string fields has none
+		for _, e := range l.FieldsOf(a.Type) {
+			switch e.K {
+			case "u8", "u16", "u32", "u48", "u64", "str", "ostr", "gateway":
+				return "nodata-fixed"
+			}
+		}
 		return "nodata"
 	}
 	for _, e := range l.FieldsOf(a.Type) {
@@ -1121,7 +1138,7 @@ func increasing(s []interface{}) bool {
 // KeyOf is the type+class part of a finding key for one record.
 func (l *Layout) KeyOf(a *RR) string {
 	c := l.ClassOf(a)
-	if c == "nodata" { // independent of the type
+	if c == "nodata" || c == "nodata-fixed" { // independent of the type
 		return c
 	}
 	if c != "" {
